@@ -58,3 +58,23 @@ def comment(rng, line, p=0.3):
     if rng.random() >= p or s.startswith(('string', 'error')):
         return line
     return line + rng.choice(['  ', ' ', '\t', '   ']) + rng.choice(COMMENTS)
+
+
+def offbase_lines(items, lines, parity=0):
+    """every second base+offset instruction (lw / sw / jalr / c.lw / ...) in the documented `offset(base)` spelling - `lw rd, off(rs1)`,
+    `sw rs2, off(rs1)` - when the offset is one plain token (a literal or a constant name); counted over the instructions, so that two
+    renderings of the same program (values literal / through constants) respell the same lines"""
+    from . import program as P
+    out = []
+    n = 0
+    for it, line in zip(items, lines):
+        if it['k'] == 'inst' and it['m'] in BASE_OFFSET and len(it['ops']) == 3:
+            n += 1
+            ops = [P.r_op(o) for o in it['ops']]
+            if n % 2 == parity and not any(c in ops[2] for c in ' ()%\t'):
+                if it['m'] in ('sb', 'sh', 'sw', 'c.sw'):
+                    line = '%s %s, %s(%s)' % (it['m'], ops[1], ops[2], ops[0])
+                else:
+                    line = '%s %s, %s(%s)' % (it['m'], ops[0], ops[2], ops[1])
+        out.append(line)
+    return out
